@@ -98,7 +98,7 @@ var addCmd = &cobra.Command{
 				cleanedArg := filepath.Clean(arg)
 				cleanedArg = strings.ReplaceAll(cleanedArg, `\`, "/")
 				_, _, isEntryFound := client.Idx.GetEntry([]byte(cleanedArg))
-				if !isEntryFound {
+				if !isEntryFound && !client.Idx.IsRegisteredAsDirectory(cleanedArg) {
 					return fmt.Errorf(`path "%s" did not match any files`, arg)
 				}
 			}
@@ -116,7 +116,17 @@ var addCmd = &cobra.Command{
 			if _, err := os.Stat(arg); os.IsNotExist(err) {
 				_, _, isEntryFound := client.Idx.GetEntry([]byte(cleanedArg))
 				if !isEntryFound {
-					// the path passed the validation above, so an earlier argument has already removed it
+					// a tracked directory that is gone from the working tree: every file beneath it has been deleted
+					var deletedPaths []string
+					for _, entry := range client.Idx.GetEntriesByDirectory(cleanedArg) {
+						deletedPaths = append(deletedPaths, string(entry.Path))
+					}
+					for _, deletedPath := range deletedPaths {
+						if err := client.Idx.DeleteEntry(client.RootGoitPath, []byte(deletedPath)); err != nil {
+							return fmt.Errorf("fail to delete untracked file %s: %w", deletedPath, err)
+						}
+					}
+					// otherwise the path passed the validation above, so an earlier argument has already removed it
 					continue
 				}
 				if err := client.Idx.DeleteEntry(client.RootGoitPath, []byte(cleanedArg)); err != nil {
